@@ -41,6 +41,13 @@ TOL_ANALYTIC = 1e-4
 W_FLOOR = 0.5
 # filtered results smaller than this fraction of the un-filtered result are not judged
 FILTER_FLOOR = 0.05
+# results below this fraction of max |stack - 1| / W are rounding noise around an exactly-zero reconstruction
+ZERO_FLOOR = 1e-6
+# corrected_stack is the REAL PART of a complex field whose rounding noise (~1e-7 of the field) does not shrink
+# when the real part happens to be small (seen: two surviving ssb bins giving a purely imaginary image, real part
+# 1e-10 of the natural scale).  The comparison scale is therefore never taken below this fraction of the natural
+# scale max |stack - 1| / W of the input
+SCALE_FLOOR = 0.1
 # relative size of the hyper-parameter change used to measure the rounding sensitivity of gamma-based kernels
 PROBE = 3e-6
 
@@ -472,18 +479,24 @@ def _check_meta(ctx, case):
     if S0.shape != shape or B0.shape != shape[1:]:
         raise core.Violation("corrected_stack/corrected_bf have shapes %s/%s, expected %s/%s" % (S0.shape, B0.shape, shape, shape[1:]), case)
     _finite(case, "reconstruction (%s)" % fam, S0, B0)
-    s_stack = float(np.max(np.abs(S0)))
+    natural = float(np.max(np.abs(X[S.sel].astype(np.float64) - 1.0))) / W
+    s_raw = float(np.max(np.abs(S0)))
+    s_stack = max(s_raw, SCALE_FLOOR * natural)
     s_bf = float(np.max(np.abs(B0))) + s_stack
     # float32 rounding is relative to the un-filtered spectrum: when the Butterworth envelopes remove (nearly)
     # everything, what is left is rounding noise and "relative to max |result|" has no meaning -> not judged
     if kw["q_lowpass"] or kw["q_highpass"]:
         with ctx.sut(case, "reconstruct(%s) without filters" % case["kernel"]):
             Snf, _b = S.run(q, dpa, sel0, "init", None, deconvolution_kernel=case["kernel"], **dict(kw, q_lowpass=None, q_highpass=None))
-        if s_stack < FILTER_FLOOR * float(np.max(np.abs(Snf))):
+        if s_raw < FILTER_FLOOR * float(np.max(np.abs(Snf))):
             ctx.record(case, False, classes + ["filtered_to_noise"])
             return
-    live = s_stack > 0.0
-    ctx.record(case, bool(live and S.nr >= 4 and unequal), classes + ([] if live else ["zero_result"]))
+    # a result that is zero up to rounding noise (e.g. ssb without aberrations when every scan frequency stays in
+    # the triple-overlap region: gamma = 0 everywhere; seen: 1e-12 where the natural scale is 1e-2) is not judged
+    if s_raw < ZERO_FLOOR * natural:
+        ctx.record(case, False, classes + ["zero_result"])
+        return
+    ctx.record(case, bool(S.nr >= 4 and unequal), classes)
 
     # Rounding sensitivity.  The ssb/obf/mf factors contain gamma = P(q-k) P*(k) - P*(q+k) P(k), a difference of
     # two O(1) terms each carrying float32 phase errors of ~1e-7 |chi|; ssb and obf then divide by |gamma| resp.
@@ -499,7 +512,7 @@ def _check_meta(ctx, case):
         _finite(case, "reconstruction (%s)" % fam, Sp, Bp)
         d_stack = float(np.max(np.abs(Sp - S0)))
         d_bf = float(np.max(np.abs(Bp - B0))) + math.sqrt(S.nr) * d_stack
-        _note(ctx, "max_rounding_sensitivity_rel:" + fam, d_stack / s_stack if s_stack > 0 else 0.0)
+        _note(ctx, "max_rounding_sensitivity_rel:" + fam, d_stack / s_stack)
         if d_stack > 0.01 * s_stack:
             ctx.count("ill_conditioned(sensitivity>1%)")
 
@@ -518,8 +531,9 @@ def _check_meta(ctx, case):
             Sf, Bf = S.run(q, S.build(q, X, "init", soft=soft, rot=hrot, abers=habers), sel0, "init", h.get("bs"), **hkw)
         _finite(case, "reconstruction (%s)" % h["kernel"], Sf, Bf)
         what = "reconstruct(%s, rotation %r, aberrations %s, max_batch_size=%r) on an instance with hyper-parameters given as overrides vs on a fresh instance" % (h["kernel"], hrot, h["abers"], h.get("bs"))
-        _cmp(ctx, case, "history", Sh, Sf, float(np.max(np.abs(Sf))), TOL_BATCH, "corrected_stack, " + what)
-        _cmp(ctx, case, "history", Bh, Bf, float(np.max(np.abs(Bf))) + float(np.max(np.abs(Sf))), TOL_BATCH, "corrected_bf, " + what)
+        s_h = max(float(np.max(np.abs(Sf))), SCALE_FLOOR * natural)
+        _cmp(ctx, case, "history", Sh, Sf, s_h, TOL_BATCH, "corrected_stack, " + what)
+        _cmp(ctx, case, "history", Bh, Bf, float(np.max(np.abs(Bf))) + s_h, TOL_BATCH, "corrected_bf, " + what)
         ctx.count("history_calls")
     for bs in batches:
         with ctx.sut(case, "reconstruct(max_batch_size=%d)" % bs):
@@ -536,8 +550,9 @@ def _check_meta(ctx, case):
             Sc, Bc = S.run(q, dpc, None, "init", None, deconvolution_kernel=case["kernel"], **kw)
         what = "kernel %s: reconstruct(bf_mask=sub-mask of %d/%d pixels) vs an instance built from that sub-mask and its images" % (fam, S.nr, S.n)
         # (with crop_bf_mask=True the two instances use detector grids of different size: k differs in the last bit)
-        _cmp(ctx, case, "submask", S0, Sc, float(np.max(np.abs(Sc))), TOL_SUB, "corrected_stack, " + what, d_stack)
-        _cmp(ctx, case, "submask", B0, Bc, float(np.max(np.abs(Bc))) + float(np.max(np.abs(Sc))), TOL_SUB, "corrected_bf, " + what, d_bf)
+        s_c = max(float(np.max(np.abs(Sc))), SCALE_FLOOR * natural)
+        _cmp(ctx, case, "submask", S0, Sc, s_c, TOL_SUB, "corrected_stack, " + what, d_stack)
+        _cmp(ctx, case, "submask", B0, Bc, float(np.max(np.abs(Bc))) + s_c, TOL_SUB, "corrected_bf, " + what, d_bf)
 
     # (2) linearity in the stack
     lin = case["lin"]
@@ -553,8 +568,11 @@ def _check_meta(ctx, case):
         Sy, By = S.run(q, S.build(q, Y, "init", soft=soft), sel0, "init", lin.get("bs"), deconvolution_kernel=case["kernel"], **kw)
         Sz, Bz = S.run(q, S.build(q, Z, "init", soft=soft), sel0, "init", lin.get("bs"), deconvolution_kernel=case["kernel"], **kw)
     _finite(case, "reconstruction (%s)" % fam, Sy, Sz)
-    sc = abs(a) * float(np.max(np.abs(Sx))) + abs(b) * float(np.max(np.abs(Sy)))
-    sc_bf = abs(a) * (float(np.max(np.abs(Bx))) + float(np.max(np.abs(Sx)))) + abs(b) * (float(np.max(np.abs(By))) + float(np.max(np.abs(Sy))))
+    nat_y = float(np.max(np.abs(Y[S.sel].astype(np.float64) - 1.0))) / W
+    s_x = max(float(np.max(np.abs(Sx))), SCALE_FLOOR * natural)
+    s_y = max(float(np.max(np.abs(Sy))), SCALE_FLOOR * nat_y)
+    sc = abs(a) * s_x + abs(b) * s_y
+    sc_bf = abs(a) * (float(np.max(np.abs(Bx))) + s_x) + abs(b) * (float(np.max(np.abs(By))) + s_y)
     what = "kernel %s: R(%g X + %g Y) vs %g R(X) + %g R(Y) (max_batch_size=%r)" % (fam, a, b, a, b, lin.get("bs"))
     _cmp(ctx, case, "linear", Sz, a * Sx + b * Sy, sc, TOL_LIN, "corrected_stack, " + what)
     _cmp(ctx, case, "linear", Bz, a * Bx + b * By, sc_bf, TOL_LIN, "corrected_bf, " + what)
@@ -645,7 +663,8 @@ def _check_analytic(ctx, case):
         "parallax (no sign flipping) corrected_bf vs sum_k T[s_k](v_k - mean v_k) / W over %d pixels, W=%.6g, aberrations %r, rotation %r, "
         "largest shift %.3g scan px" % (S.nr, W, S.canon, S.rot, maxshift_px)
     )
-    _cmp(ctx, case, "analytic", got, want, float(np.max(np.abs(want))), TOL_ANALYTIC, msg)
+    natural = float(np.max(np.abs(X[S.sel].astype(np.float64) - 1.0))) / W
+    _cmp(ctx, case, "analytic", got, want, max(float(np.max(np.abs(want))), SCALE_FLOOR * natural), TOL_ANALYTIC, msg)
 
 
 # ------------------------------------------------------------------------------------------------
